@@ -101,6 +101,8 @@ class Ctx:
         if os.path.exists(kf_path):
             known = [k for k in json.load(open(kf_path)).get("findings", []) if k.get("property") == self.pid and k.get("status") == "known"]
         rdir = os.path.join(vlib.OUT, "replay_cases", self.pid)
+        import shutil
+        shutil.rmtree(rdir, ignore_errors=True)
         os.makedirs(rdir, exist_ok=True)
         hit = {}
         unlisted = []
@@ -124,7 +126,7 @@ class Ctx:
                                steps=b.steps, disagreement=m.sig()), f, indent=1)
             if shown < 5:
                 print("VIOLATION property=%s replay=%s" % (self.pid, path))
-                print("  #", m.kind, "at step", m.step, "event", m.event, "\n  # predicted", m.pred, "\n  # observed ", m.obs)
+                print("  #", m.kind, "at step", m.step, "event", str(m.event)[:200], "\n  # predicted", str(m.pred)[:300], "\n  # observed ", str(m.obs)[:300])
             shown += 1
         if shown > 5:
             print("  # ... %d more unlisted disagreements (%d total)" % (shown - 5, shown))
